@@ -356,10 +356,12 @@ func runHashCorrespondence(f lib.Flags, res *lib.Result, drv *lib.Driver, r *lib
 	nChains := f.Scale(3, 12)
 	nBlocks := f.Scale(8, 14)
 	nEdge := f.Scale(6, 30)
+	var lastGen *lib.ChainGen
 	for ci := 0; ci < nChains; ci++ {
 		opt := lib.DefaultGenOptions()
 		opt.MaxTxs = 5
 		g := lib.NewChainGen(r.Fork(uint64(1000+ci)), ci%2 == 1, opt)
+		lastGen = g
 		for bi := 0; bi < nBlocks; bi++ {
 			spec := &lib.BlockSpec{}
 			if bi < 4 {
@@ -408,6 +410,24 @@ func runHashCorrespondence(f lib.Flags, res *lib.Result, drv *lib.Driver, r *lib
 				sd := lib.DeepCopy(eb.SU.StateDiff).(*core.StateDiff)
 				hh := sd.Hash()
 				add(corrCase{"sd", sdLine(eb.SU.StateDiff), fmt.Sprintf("%x %s", sd.Length(), feltHex(&hh)), what})
+			}
+		}
+	}
+	// round 6: diffs with Length() == 0 that are NOT the empty diff (k addresses with an empty storage map): the state
+	// diff hash and, on every generated block, the block hash must tell them from the empty diff
+	for k := 0; k <= 3; k++ {
+		zd := core.EmptyStateDiff()
+		for j := 0; j < k; j++ {
+			zd.StorageDiffs[*lib.F(0x7e57ab10 + uint64(j))] = map[felt.Felt]*felt.Felt{}
+		}
+		cp := lib.DeepCopy(&zd).(*core.StateDiff)
+		hh := cp.Hash()
+		res.Hit("corr-sd-zero-length")
+		add(corrCase{"sd", sdLine(&zd), fmt.Sprintf("%x %s", cp.Length(), feltHex(&hh)), fmt.Sprintf("zero-length diff with %d empty storage maps", k)})
+		if lastGen != nil {
+			for _, b := range lastGen.Bundles {
+				impl, _ := realBlockHash(b.Block, &zd, net, nil)
+				add(corrCase{"bh", bhLine(net, nil, b.Block, &zd), impl, fmt.Sprintf("block %d over a zero-length diff with %d empty storage maps", b.Block.Number, k)})
 			}
 		}
 	}
